@@ -2,6 +2,7 @@ package verifrt
 
 import (
 	"math/rand"
+	"net/http"
 	"sync"
 	"sync/atomic"
 	"time"
@@ -321,4 +322,18 @@ func (p *Pool) Put(v interface{}) {
 	if !s.aborted {
 		s.point(false)
 	}
+}
+
+// ---- file systems ----
+
+// FS wraps a file system so that opening a file is a scheduling point (under the scheduler only).
+func FS(inner http.FileSystem) http.FileSystem { return pointFS{inner} }
+
+type pointFS struct{ inner http.FileSystem }
+
+func (f pointFS) Open(name string) (http.File, error) {
+	if S != nil {
+		S.point(false)
+	}
+	return f.inner.Open(name)
 }
